@@ -29,7 +29,7 @@ def queries(tier):
         # small deviations of a count re-align the rest of the parse onto symbolic payload bytes (structural fields become symbolic and the
         # query no longer finishes); those are covered by the prefix family and the kernels, here only values that fail fast or keep the layout
         if f in (0, 1, 4, 7, 8):
-            vals = {v for v in vals if v >= 9}
+            vals = {v for v in vals if v >= (31 if f == 1 else 9)}
         if f == 6:
             vals = {v for v in vals if v == 0 or v >= 0x7FFFFFFF} | {2}
         for v in sorted(vals):
